@@ -140,6 +140,7 @@ func c38(r *core.Run) {
 	funcs := w.PkgFuncs("pkg/multicast")
 	goLoopCapture(r, "C38.Y1", "pkg/multicast", 3)
 	c38Dedup(r)
+	c38ForwardLists(r)
 	// W1 + Z1
 	type mut struct {
 		fn   *ssa.Function
